@@ -325,8 +325,48 @@ def _exp1(v):
 
 def exp(x): return _map(_exp1, x, _fdt, 'exp')
 def log(x): return _map(lambda v: sc.slog(v), x, _fdt, 'log')
-def cos(x): return _map(lambda v: sc.scos(v), x, _fdt, 'cos')
-def sin(x): return _map(lambda v: sc.ssin(v), x, _fdt, 'sin')
+def _realarg(v, name):
+    """transcendental of a complex value is modelled only when its imaginary part is identically zero"""
+    if isinstance(v, (Cx, complex)):
+        v = Cx.lift(v)
+        if not v.terms:
+            return 0
+        if len(v.terms) == 1 and v.terms[0][2] is None:
+            im = z3.simplify(v.terms[0][1])
+            if z3.is_rational_value(im) and im.as_fraction() == 0:
+                return SReal(v.terms[0][0])
+            if sc.entails(im == 0):
+                return SReal(v.terms[0][0])
+        raise Unsupported('%s of a complex value with non-zero imaginary part' % name)
+    return v
+
+
+def cos(x): return _map(lambda v: sc.scos(_realarg(v, 'cos')), x, _fdt, 'cos')
+def sin(x): return _map(lambda v: sc.ssin(_realarg(v, 'sin')), x, _fdt, 'sin')
+def arcsin(x): return _map(lambda v: sc.sarcsin(_realarg(v, 'arcsin')), x, _fdt, 'arcsin')
+def degrees(x): return x * 180 / pi
+def radians(x): return x * pi / 180
+rad2deg = degrees
+deg2rad = radians
+
+
+class _SciMath:
+    @staticmethod
+    def arcsin(x):
+        """scimath.arcsin: real branch only (|x| <= 1 is a safety obligation of the caller's contract)"""
+        _log('lib.scimath.arcsin (real branch)')
+        return arcsin(x)
+
+    @staticmethod
+    def sqrt(x):
+        return sqrt(x)
+
+
+class _Lib:
+    scimath = _SciMath()
+
+
+lib = _Lib()
 def tan(x): return _map(lambda v: sc.ssin(v) / sc.scos(v), x, _fdt, 'tan')
 def tanh(x): return _map(lambda v: sc.stanh(v), x, _fdt, 'tanh')
 def arctan(x): return _map(lambda v: sc.sarctan(v), x, _fdt, 'arctan')
